@@ -154,6 +154,11 @@ macro_rules! single_line_harness {
         #[kani::stub(alloc::string::String::push_str, sink::string_push_str)]
         #[kani::stub(str::repeat, sink::str_repeat_1)]
         #[kani::stub(alloc::fmt::format, format_stub_u1)]
+        #[kani::stub(str::ends_with, strlex::guard_ends_with)]
+        #[kani::stub(alloc::string::String::insert, strlex::guard_string_insert)]
+        #[kani::stub(alloc::string::String::insert_str, strlex::guard_string_insert_str)]
+        #[kani::stub(alloc::string::String::pop, strlex::guard_string_pop)]
+        #[kani::stub(alloc::string::String::truncate, strlex::guard_string_truncate)]
         #[kani::stub(str::find, strlex::str_find_char)]
         #[kani::unwind($unw)]
         fn $name() {
@@ -237,6 +242,11 @@ macro_rules! block_harness {
         #[kani::stub(alloc::string::String::push_str, sink::string_push_str)]
         #[kani::stub(str::repeat, sink::str_repeat_1)]
         #[kani::stub(alloc::fmt::format, format_stub_u1)]
+        #[kani::stub(str::ends_with, strlex::guard_ends_with)]
+        #[kani::stub(alloc::string::String::insert, strlex::guard_string_insert)]
+        #[kani::stub(alloc::string::String::insert_str, strlex::guard_string_insert_str)]
+        #[kani::stub(alloc::string::String::pop, strlex::guard_string_pop)]
+        #[kani::stub(alloc::string::String::truncate, strlex::guard_string_truncate)]
         #[kani::stub(str::find, strlex::str_find_char)]
         #[kani::unwind($unw)]
         fn $name() {
